@@ -106,6 +106,12 @@ pub trait Property {
     fn exhaustive(_tier: Tier) -> bool {
         false
     }
+    /// Some(n) overrides the number of shrink iterations; Some(0) also makes the shard stop at
+    /// its first violation (used by the scheduler-driven checks: the process is not reused after
+    /// a scheduler failure).
+    fn shrink_iters(_tier: Tier) -> Option<u32> {
+        None
+    }
 }
 
 // ---------------------------------------------------------------------------------------------
@@ -326,7 +332,8 @@ pub fn run_shard<P: Property>(ctx: &Ctx) -> ShardResult {
     std::fs::create_dir_all(&ctx.out_dir).ok();
     let journal_path = format!("{}/journal_{}.txt", ctx.out_dir, ctx.shard);
     let mut journal = std::fs::File::create(&journal_path).expect("journal");
-    let shrink_iters = ctx.tier.pick(400, 1500);
+    let shrink_iters = P::shrink_iters(ctx.tier).unwrap_or(ctx.tier.pick(400, 1500));
+    let stop_at_first = P::shrink_iters(ctx.tier) == Some(0);
 
     for i in 0..per_shard {
         let seed = case_seed(ctx.seed, P::ID, ctx.shard, i);
@@ -426,7 +433,7 @@ pub fn run_shard<P: Property>(ctx: &Ctx) -> ShardResult {
                 res.violations
                     .push(json!({"replay": name, "sig": f.sig, "detail": f.detail.chars().take(300).collect::<String>()}));
                 // stop this shard after a handful of distinct violations
-                if res.violations.len() >= 5 {
+                if res.violations.len() >= 5 || stop_at_first {
                     break;
                 }
             }
